@@ -131,13 +131,13 @@ void sim_free(void *p) {
 }
 
 int sim_socket(int domain, int type, int protocol) {
-	SYSCALL("socket"); (void)type; (void)protocol;
+	SYSCALL("socket"); { int fe_ = g_hooks ? g_hooks->syscall_fault("socket") : 0; if (fe_) { errno = fe_; return -1; } } (void)type; (void)protocol;
 	KFd &k = g_kernel.alloc_fd(FD_SOCKNEW); k.sock_family = domain;
 	return k.fd;
 }
 
 int sim_setsockopt(int fd, int level, int optname, const void *optval, socklen_t optlen) {
-	SYSCALL("setsockopt"); (void)optlen;
+	SYSCALL("setsockopt"); { int fe_ = g_hooks ? g_hooks->syscall_fault("setsockopt") : 0; if (fe_) { errno = fe_; return -1; } } (void)optlen;
 	KFd *k = checked(fd, "setsockopt", M(FD_SOCKNEW) | M(FD_LISTEN) | M(FD_STREAM));
 	if (!k) return -1;
 	if (k->kind == FD_STREAM && k->cfg_fail_at && ++k->cfg_calls == k->cfg_fail_at) { if (g_hooks) g_hooks->on_file_op("sockcfg-fault", k->cfg_fail_errno); errno = k->cfg_fail_errno; return -1; }
@@ -146,7 +146,7 @@ int sim_setsockopt(int fd, int level, int optname, const void *optval, socklen_t
 }
 
 int sim_fcntl(int fd, int cmd, ...) {
-	SYSCALL("fcntl");
+	SYSCALL("fcntl"); { int fe_ = g_hooks ? g_hooks->syscall_fault("fcntl") : 0; if (fe_) { errno = fe_; return -1; } }
 	va_list ap; va_start(ap, cmd); long arg = va_arg(ap, long); va_end(ap);
 	KFd *k = checked(fd, "fcntl", ~0);
 	if (!k) return -1;
@@ -166,7 +166,7 @@ static SockAddrSpec spec_of(const struct sockaddr *sa, socklen_t len) {
 }
 
 int sim_bind(int fd, const struct sockaddr *addr, socklen_t len) {
-	SYSCALL("bind");
+	SYSCALL("bind"); { int fe_ = g_hooks ? g_hooks->syscall_fault("bind") : 0; if (fe_) { errno = fe_; return -1; } }
 	KFd *k = checked(fd, "bind", M(FD_SOCKNEW));
 	if (!k) return -1;
 	k->bound = spec_of(addr, len);
@@ -174,7 +174,7 @@ int sim_bind(int fd, const struct sockaddr *addr, socklen_t len) {
 }
 
 int sim_listen(int fd, int backlog) {
-	SYSCALL("listen"); (void)backlog;
+	SYSCALL("listen"); { int fe_ = g_hooks ? g_hooks->syscall_fault("listen") : 0; if (fe_) { errno = fe_; return -1; } } (void)backlog;
 	KFd *k = checked(fd, "listen", M(FD_SOCKNEW) | M(FD_LISTEN));
 	if (!k) return -1;
 	k->kind = FD_LISTEN; k->listening = true;
@@ -190,7 +190,7 @@ int sim_accept(int fd, struct sockaddr *addr, socklen_t *addrlen) {
 int sim_accept4(int fd, struct sockaddr *addr, socklen_t *addrlen, int flags) { (void)flags; return sim_accept(fd, addr, addrlen); }
 
 int sim_getsockname(int fd, struct sockaddr *addr, socklen_t *addrlen) {
-	SYSCALL("getsockname");
+	SYSCALL("getsockname"); { int fe_ = g_hooks ? g_hooks->syscall_fault("getsockname") : 0; if (fe_) { errno = fe_; return -1; } }
 	KFd *k = checked(fd, "getsockname", M(FD_SOCKNEW) | M(FD_LISTEN) | M(FD_STREAM));
 	if (!k) return -1;
 	if (k->kind == FD_STREAM && k->cfg_fail_at && ++k->cfg_calls == k->cfg_fail_at) { if (g_hooks) g_hooks->on_file_op("sockcfg-fault", k->cfg_fail_errno); errno = k->cfg_fail_errno; return -1; }
@@ -267,12 +267,12 @@ int sim_close(int fd) {
 	return 0;
 }
 
-int sim_epoll_create(int size) { SYSCALL("epoll_create"); (void)size; return g_kernel.alloc_fd(FD_EPOLL).fd; }
+int sim_epoll_create(int size) { SYSCALL("epoll_create"); { int fe_ = g_hooks ? g_hooks->syscall_fault("epoll_create") : 0; if (fe_) { errno = fe_; return -1; } } (void)size; return g_kernel.alloc_fd(FD_EPOLL).fd; }
 int sim_epoll_create1(int flags) { (void)flags; return sim_epoll_create(1); }
 
 
 int sim_epoll_ctl(int epfd, int op, int fd, struct epoll_event *ev) {
-	SYSCALL("epoll_ctl");
+	SYSCALL("epoll_ctl"); { int fe_ = g_hooks ? g_hooks->syscall_fault("epoll_ctl") : 0; if (fe_) { errno = fe_; return -1; } }
 	KFd *e = g_kernel.get(epfd);
 	if (!e || !e->open || e->kind != FD_EPOLL) {
 		if (g_hooks) g_hooks->hygiene("epoll_ctl-on-non-epoll", "epoll_ctl called with a first argument that is not an open epoll descriptor of the daemon");
@@ -381,7 +381,7 @@ static long file_write(KFd &k, const void *buf, size_t n) {
 }
 
 int sim_open(const char *path, int flags, ...) {
-	SYSCALL("open");
+	SYSCALL("open"); { int fe_ = g_hooks ? g_hooks->syscall_fault("open") : 0; if (fe_) { errno = fe_; return -1; } }
 	auto it = g_kernel.files.find(path);
 	bool created = false;
 	if (it == g_kernel.files.end()) {
